@@ -6,6 +6,7 @@
 package auth
 
 import (
+	"crypto/rand"
 	"encoding/binary"
 	"fmt"
 	"sort"
@@ -16,6 +17,7 @@ import (
 	"i2psim.local/sim/adapters"
 	"i2psim.local/sim/engine"
 	"i2psim.local/sim/refmodel"
+	"i2psim.local/sim/seams"
 )
 
 type World struct{}
@@ -61,7 +63,10 @@ func genShape(r *engine.RNG, kind string, c06 bool) *engine.Shape {
 			sh.U = append(sh.U, r.Uint64()>>uint(1+r.Intn(30)))
 		}
 	case "ls2", "mls":
-		sh.Sig, sh.Crypto = r.PickInt(7, 7, 7, 11, 11, 0, 1), r.PickInt(4, 0)
+		sh.Sig, sh.Crypto = r.PickInt(7, 7, 7, 11, 11, 0, 0, 1), r.PickInt(4, 0)
+		if sh.Sig == 0 && r.Chance(1, 2) {
+			sh.Cert, sh.Crypto = "null", 0 // classic ElGamal + DSA destination
+		}
 		sh.U = []uint64{r.Uint64() & 0xFFFFFFFF, r.Uint64() & 0xFFFF, uint64(r.Intn(4)) << 1}
 		off(7, 7, 11, 8, 0, 1)
 		if kind == "ls2" {
@@ -104,7 +109,7 @@ func dropEmptyKeys(o [][2]string) [][2]string {
 	return out
 }
 
-var byteFaults = []string{"bitflip", "bitflip", "rewrite", "mapping_slack", "mapping_slack", "after_sig", "sig_swap", "key_subst", "replay", "revocation_key_forgery"}
+var byteFaults = []string{"bitflip", "bitflip", "rewrite", "mapping_slack", "mapping_slack", "cert_slack", "cert_slack", "after_sig", "sig_swap", "key_subst", "replay", "revocation_key_forgery"}
 var shapeFaults = []string{"offline_forgery", "offline_forgery", "offline_transplant", "store_confusion"}
 
 func (World) Generate(r *engine.RNG, tier string) *engine.Script {
@@ -290,6 +295,58 @@ func applyByteFault(m *message, f *engine.Fault, recorded []*message) bool {
 		}
 		if nf.SigStart >= at {
 			nf.SigStart += junkLen
+		}
+		m.frame = &nf
+		return true
+	case "cert_slack":
+		// excess certificate payload: the identity's certificate length is
+		// raised by n and n bytes are inserted behind the certificate. A parser
+		// that skips what it does not understand must still have it covered
+		// by the signature.
+		var lenF *refmodel.Field
+		end := -1
+		for i := range fr.Fields {
+			fl := &fr.Fields[i]
+			if fl.Name == "cert_len" && lenF == nil {
+				lenF = fl
+				end = fl.End
+			}
+			if fl.Name == "cert_payload" && lenF != nil && fl.Start == lenF.End {
+				end = fl.End
+			}
+		}
+		if lenF == nil || lenF.Start+2 > len(raw) || end > len(raw) {
+			return false
+		}
+		cur := int(binary.BigEndian.Uint16(raw[lenF.Start : lenF.Start+2]))
+		n := 1 + int(f.N[0])%8
+		if cur+n > 0xFFFF {
+			return false
+		}
+		var junk []byte
+		switch int(f.N[1]) % 3 {
+		case 0:
+			junk = refmodel.Expand(uint64(f.N[2]), "certjunk", n)
+		case 1:
+			junk = make([]byte, n)
+		default:
+			junk = []byte{0, 7, 0, 4, 0, 7, 0, 4}[:n] // looks like key types
+		}
+		out := append([]byte(nil), raw[:end]...)
+		out = append(out, junk...)
+		out = append(out, raw[end:]...)
+		binary.BigEndian.PutUint16(out[lenF.Start:lenF.Start+2], uint16(cur+n))
+		m.raw = out
+		nf := *fr
+		nf.Fields = append([]refmodel.Field(nil), fr.Fields...)
+		for i := range nf.Fields {
+			if nf.Fields[i].Start >= end {
+				nf.Fields[i].Start += n
+				nf.Fields[i].End += n
+			}
+		}
+		if nf.SigStart >= end {
+			nf.SigStart += n
 		}
 		m.frame = &nf
 		return true
@@ -551,10 +608,21 @@ func c06Label(sh *engine.Shape) string {
 
 // c06Check runs the C06 obligations for one shape; it returns "" or the
 // failed obligation and a detail.
-func c06Check(o *engine.Outcome, sh *engine.Shape, count bool) (string, string) {
+func c06Check(o *engine.Outcome, sh *engine.Shape, count bool, ef *engine.Fault) (string, string) {
 	var c *constructed
 	var err error
-	if o.Guard("construct "+sh.Kind, func() { c, err = construct(sh) }) {
+	saved := rand.Reader
+	var fr *seams.FaultyReader
+	if ef != nil && len(ef.N) > 0 {
+		fr = &seams.FaultyReader{Under: saved, Kind: ef.Kind, Param: int(ef.N[0])}
+		rand.Reader = fr
+	}
+	panicked := o.Guard("construct "+sh.Kind, func() { c, err = construct(sh) })
+	rand.Reader = saved
+	if fr != nil && fr.Fired && count {
+		o.Fault(fr.Kind)
+	}
+	if panicked {
 		return "", ""
 	}
 	if err != nil || c == nil {
@@ -623,14 +691,27 @@ func executeC06(s *engine.Script, o *engine.Outcome) {
 		}
 		sh := op.Shape
 		o.NonTrivial = true
-		fail, detail := c06Check(o, sh, true)
+		var ef *engine.Fault
+		for k := range s.Faults {
+			if s.Faults[k].At == int64(i) && strings.HasPrefix(s.Faults[k].Kind, "entropy_") {
+				ef = &s.Faults[k]
+			}
+		}
+		if len(op.N) > 0 {
+			for k := range s.Faults {
+				if s.Faults[k].At == op.N[0] && strings.HasPrefix(s.Faults[k].Kind, "entropy_") {
+					ef = &s.Faults[k]
+				}
+			}
+		}
+		fail, detail := c06Check(o, sh, true, ef)
 		if fail != "" {
 			feat := c06Label(sh)
 			// is the content (options / addresses) needed for the failure?
 			if len(sh.Opts) > 0 || len(sh.Sub) > 0 {
 				plain := *sh
 				plain.Opts, plain.Sub = nil, nil
-				if f2, _ := c06Check(o, &plain, false); f2 != fail {
+				if f2, _ := c06Check(o, &plain, false, ef); f2 != fail {
 					feat += "/needs-options"
 					if hasShortPair(sh) {
 						feat += "-with-a-pair-shorter-than-6-bytes"
